@@ -324,6 +324,26 @@ def r68(F):
     r.inst("rewriter:std-exempt", xf.where(xb), okx, "only paths starting with std<sep> are left alone" if okx else "exemption is not exactly the std/ prefix (format literals: %s)" % lits)
     inc_f, inc_blocks = homes["Include"]
     inc_exempt = xf is inc_f and xb in inc_blocks
+    if inc_exempt and xf is not fn:
+        # the exemption sits in a shared helper: it may be switched by a flag parameter that the Include arm passes as false
+        names = xf.var_names()
+        for pi in range(1, xf.nargs + 1):
+            if xf.local_ty(pi) != "bool":
+                continue
+            guarded = any(cfg.dominates(xf, tt, xb) for sb, ft, tt in util.bool_switches(xf, pi))
+            if not guarded:
+                continue
+            # the call from the Include arm
+            for b in range(len(fn.blocks)):
+                t = fn.term(b)
+                if t["k"] == "switch" and t.get("enum") == EXPR and not fn.is_cleanup(b):
+                    e = cfg.switch_edge(t, variant="Include")
+                    if e is None:
+                        continue
+                    blocks = {x for x in range(len(fn.blocks)) if cfg.dominates(fn, e, x)}
+                    calls = [tt2 for x, tt2 in fn.calls() if x in blocks and callee(tt2) == xf.name]
+                    if calls and all(len(c["args"]) >= pi and c["args"][pi - 1].get("int") == "0" for c in calls):
+                        inc_exempt = False
     r.inst("rewriter:std-exempt:import-only", xf.where(xb), not inc_exempt,
            "the std/ exemption is applied to imports only (the standard library is embedded; included files are read from disk)" if not inc_exempt else
            "the std/ exemption is also applied to include paths: `include str \"std/x.txt\"` keeps its relative path and is read "
